@@ -152,7 +152,7 @@ prop('C20', units=['pdf', 'fmv'], level='proof',
 prop('C19', units=['etr'], level='proof',
      technique='Verus: find_sell_to_cover_trade_set - every set it returns consists of candidates at pairwise different positions, all of the benefit\'s security, with share counts adding up to the benefit\'s sold shares (loop invariant over the collected candidate sets, through the ranking and the sort); amend_benefit_sales - multiset conservation of trade confirmations (leftover + consumed == all, consumed are sales), exchange argument for the position search, descending removal; benefits passed through with dates of a sale within [benefit date, +5 days]; txs_from_data - one purchase row per benefit at FMV, one sale row per sell-to-cover, one row per leftover confirmation, each exactly once, sorted',
      level_text='Deductive proof (Verus) of the matching/accounting core of the E*TRADE extraction for all benefit and confirmation lists: a sell-to-cover is matched only by sales of the same security inside the five-day window whose share counts add up to the sold shares; every confirmation ends up exactly once (leftover or consumed by a sell-to-cover); benefits are otherwise unchanged; the rows written are one purchase per benefit, one sale per sell-to-cover, one row per leftover confirmation. The PDF text parsers and which of several equally good candidate sets wins (price ranking) are not verified.',
-     level_note='Stand-ins for itertools / std iterator chains inside find_sell_to_cover_trade_set are assumed (hole_combinations: sub-sequences at pairwise different positions; hole_all/any_same_security, hole_sum_shares, hole_deref_refs, hole_take_first: paraphrases of all / any / map.sum / map.collect / into_iter.next; hole_rank_combos: one entry per candidate set carrying that set - its price arithmetic is not verified, its division by the set's share count is a precondition of the hole (discharged from the candidate-set invariant under the input hypothesis that a reported sold-share count is not zero)); the local struct of that function is lifted to module level (R28); hole_position paraphrases iter().enumerate().position(..); sell_to_cover_data is assumed (all-or-none of the optional fields); BrokerTx / BenefitEntry equality is structural (derived); model E.',
+     level_note='Stand-ins for itertools / std iterator chains inside find_sell_to_cover_trade_set are assumed (hole_combinations: sub-sequences at pairwise different positions; hole_all/any_same_security, hole_sum_shares, hole_deref_refs, hole_take_first: paraphrases of all / any / map.sum / map.collect / into_iter.next; hole_rank_combos: one entry per candidate set carrying that set - its price arithmetic is not verified, its division by the share count of the set is a precondition of the hole (discharged from the candidate-set invariant under the input hypothesis that a reported sold-share count is not zero)); the local struct of that function is lifted to module level (R28); hole_position paraphrases iter().enumerate().position(..); sell_to_cover_data is assumed (all-or-none of the optional fields); BrokerTx / BenefitEntry equality is structural (derived); model E.',
      not_covered=['regex parsers of benefit / trade confirmation PDFs', 'price ranking among several candidate sets (average price, Decimal::MAX sentinel)', 'memo text of the rows'],
      witnesses=['D8'])
 ALL_UNITS.append('etr')
